@@ -155,6 +155,24 @@ fn main() {
         "C08" => p08::run08(&args),
         "C09" => p08::run09(&args),
         "C10" => p08::run10(&args),
+        "ind-dump" => {
+            // vharness ind-dump MODEL.json: the indicators of a model file (for replays)
+            let t = std::fs::read_to_string(std::env::args().nth(2).unwrap_or_default()).unwrap_or_default();
+            match bemodel::Model::from_json(&t) {
+                Ok(m) => {
+                    let ind = m.energy_indicators();
+                    for (id, w) in &ind.props.walls {
+                        if !w.u_value.map_or(true, |u| u.is_finite()) {
+                            let name = m.walls.iter().find(|x| x.id == *id).map(|x| x.name.clone()).unwrap_or_default();
+                            println!("wall {} u_value {:?} area_gross {} area_net {} bounds {:?} tilt {:?}", name, w.u_value, w.area_gross, w.area_net, w.bounds, w.tilt);
+                        }
+                    }
+                    println!("K {} n50 {} area_ref {} compactness {}", ind.K_data.K, ind.n50_data.n50, ind.area_ref, ind.compactness);
+                }
+                Err(e) => println!("ERROR: {}", e),
+            }
+            return;
+        }
         "bdl-parse" => {
             // vharness bdl-parse FILE: what hulc::bdl::build_blocks makes of a text (for replays)
             let t = std::fs::read_to_string(std::env::args().nth(2).unwrap_or_default()).unwrap_or_default();
